@@ -1,11 +1,19 @@
 import Pyunicorn.Model.Proto
 import Pyunicorn.Model.Visibility
+import Pyunicorn.Model.VisibilityExt
 /-! Line-protocol driver of C14: one request per line on stdin, one answer per line.
 
 * `nvg_mv N x t mv`, `nvg N x t`, `hvg N x` — the three kernels: adjacency matrix or `raise:…`
 * `class x t|- missing horizontal` — `VisibilityGraph(x, timings, missing_values, horizontal)`:
   `A|retarded_degree|advanced_degree|degree|retarded_clustering|advanced_clustering`
+  (the matrix is the state left by the stores of the kernels, `classMat`)
+* `classp …` — the same plus `|retarded_closeness|advanced_closeness|boundary_corrected_degree|
+  boundary_corrected_closeness` (NaN = `nan`)
+* `mat x t|- missing horizontal` — only the adjacency matrix (`visibility_relations()` /
+  `visibility_relations_horizontal()` called again on an object)
 * `retclust N A norm`, `advclust N A norm` — the clustering kernels on any 0/1 matrix
+* `nvgR N x t`, `nvgR_mv N x t mv` — the natural kernels in float32 arithmetic (`kernelNR rndF32`)
+* `faithful N x t` — `1` iff `Faithful rndF32 x t N` (then `nvg_float32_eq_exact` applies)
 -/
 open Pyunicorn Pyunicorn.Proto Pyunicorn.Visibility
 
@@ -23,23 +31,45 @@ def showLog (N : Nat) : Except Err (List (Nat × Nat)) → String
   | .ok log => showBoolMat (adjMat N log)
   | .error e => showErr e
 
-def showClass (N : Nat) : Except Err (List (Nat × Nat)) → String
+def showMat : Except Err (List (List Bool)) → String
+  | .ok A => showBoolMat A
   | .error e => showErr e
-  | .ok log =>
-    let A := adjMat N log
+
+def showORats (xs : List (Option Rat)) : String :=
+  if xs.isEmpty then "-" else join (xs.map fun v => match v with | none => "nan" | some r => showRat r)
+
+def showClass (paths : Bool) : Except Err (List (List Bool)) → String
+  | .error e => showErr e
+  | .ok A =>
+    let N := A.length
     let r := List.range N
-    join [showBoolMat A, showNats (r.map (retDeg A)), showNats (r.map (advDeg A)),
-          showNats (r.map (deg A)), showRats (retClust A), showRats (advClust A)] "|"
+    let base := [showBoolMat A, showNats (r.map (retDeg A)), showNats (r.map (advDeg A)),
+          showNats (r.map (deg A)), showRats (retClust A), showRats (advClust A)]
+    let ext := if paths then
+        [showORats (r.map (retClose N A)), showORats (r.map (advClose N A)),
+         showRats (bcDegree A), showORats (bcCloseness A)]
+      else []
+    join (base ++ ext) "|"
 
 def answer (toks : List String) : String :=
   match toks with
-  | ["nvg_mv", n, x, t, m] => showLog n.toNat! (kernelN (vals x) (rats t) (some (bools m)) n.toNat!)
-  | ["nvg", n, x, t] => showLog n.toNat! (kernelN (vals x) (rats t) none n.toNat!)
-  | ["hvg", n, x] => showLog n.toNat! (kernelH (vals x) n.toNat!)
-  | ["class", x, t, mis, hor] =>
-      let xs := vals x
-      showClass xs.length (classLog xs (if t == "-" then none else some (rats t))
-        (mis == "1") (hor == "1"))
+  | ["nvg_mv", n, x, t, m] =>
+      showMat (kernelNM (vals x) (rats t) (some (bools m)) n.toNat! (zeros n.toNat!))
+  | ["nvg", n, x, t] => showMat (kernelNM (vals x) (rats t) none n.toNat! (zeros n.toNat!))
+  | ["hvg", n, x] => showMat (kernelHM (vals x) n.toNat! (zeros n.toNat!))
+  | ["nvgR_mv", n, x, t, m] =>
+      showLog n.toNat! (kernelNR rndF32 (vals x) (rats t) (some (bools m)) n.toNat!)
+  | ["nvgR", n, x, t] => showLog n.toNat! (kernelNR rndF32 (vals x) (rats t) none n.toNat!)
+  | ["faithful", n, x, t] =>
+      if decide (Faithful rndF32 (vals x) (rats t) n.toNat!) then "1" else "0"
+  | ["mat", x, t, mis, hor] =>
+      showMat (classMat (vals x) (if t == "-" then none else some (rats t)) (mis == "1") (hor == "1"))
+  | [c, x, t, mis, hor] =>
+      if c == "class" || c == "classp" then
+        let xs := vals x
+        showClass (c == "classp") (classMat xs (if t == "-" then none else some (rats t))
+          (mis == "1") (hor == "1"))
+      else "bad-request"
   | ["retclust", n, a, norm] => showRats (retClustKernel n.toNat! (boolMat a) (rats norm))
   | ["advclust", n, a, norm] => showRats (advClustKernel n.toNat! (boolMat a) (rats norm))
   | _ => "bad-request"
